@@ -129,6 +129,7 @@ Definition rule_to_json (r : jrule) : res json :=
     do fds <- mapM rfd_to_json (jr_fds r) ;;
     Ok (JObj [(K_id, buf_to_json (jr_id r)); (K_nature, JNature Compression); (K_field_descriptors, JList fds)])
   | NoCompression => Ok (JObj [(K_id, buf_to_json (jr_id r)); (K_nature, JNature NoCompression)])
+  | Fragmentation => Exc NotImplementedError     (* raise NotImplementedError('Fragmentation/Reassembly ...') *)
   end.
 Definition rule_from_json (j : json) : res jrule :=
   do n <- jget j K_nature ;;
